@@ -70,6 +70,8 @@ pub fn list_ops(full: bool) -> Vec<Op1> {
   }
   v.push(Op1::Collect);
   v.push(Op1::OnErrorMap);
+  v.push(Op1::OnComplete);
+  v.push(Op1::OnError);
   // stateful closures (every closure is called exactly once per item it is asked about)
   v.extend([Op1::MapIdx, Op1::FilterIdx, Op1::ScanIdx]);
   for n in if full { vec![0, 1, 2] } else { vec![1] } {
